@@ -61,6 +61,15 @@ def main() -> None:
                          for r in env.reporter.reports)
             digs.append([digest(state_canon(sim)), digest(evs)])
         out.append({"world": i, "steps": digs, "error": err})
+    # initial layouts: generated vehicles / stations / bases / fleets files (human drivers sharing home
+    # bases, stations on several rows) loaded by the real initialize(); the loaded state must not
+    # depend on the hash seed
+    from . import layout
+
+    lrng = random.Random(seed + 17)
+    for i in range(max(2, count // 2)):
+        rec = layout.gen_case(lrng, i)
+        out.append({"world": 1000 + i, "steps": [[digest(json.dumps(rec.get("sim"), sort_keys=True)), digest(str(rec.get("raised")))]], "error": None})
     sys.stdout.write(json.dumps(out) + "\n")
 
 
